@@ -482,7 +482,7 @@ def _check(ctx, run, flags=(), label="default"):
     def expand(f, depth=0):
         """per path: flat list of (callee, rendered args) with TestOutput helper calls inlined"""
         out = []
-        for p in enumerate_paths(f):
+        for p in enumerate_paths(f, inline=None):
             seqs = [[]]
             for c in path_calls(prog, f, p):
                 nm = prog.callee_name(f, c) or ""
